@@ -8,51 +8,31 @@ use crate::execution::vector::ValueVector;
 use grafeo_common::types::Value;
 use std::collections::HashSet;
 
-/// Hash key for distinct tracking.
+/// Row identity for deduplication: the cell values themselves, hashed and compared by
+/// identity (hashing the cells to a `u64` conflated NULL with `false` and every value of the
+/// types it did not know with each other).
 #[derive(Debug, Clone, PartialEq, Eq, Hash)]
-struct RowKey(Vec<u64>);
+struct RowKey(Vec<grafeo_common::types::HashableValue>);
 
 impl RowKey {
     fn from_row(chunk: &DataChunk, row: usize, columns: &[usize]) -> Self {
-        let hashes: Vec<u64> = columns
+        let parts: Vec<grafeo_common::types::HashableValue> = columns
             .iter()
             .map(|&col| {
-                chunk
+                let value = chunk
                     .column(col)
                     .and_then(|c| c.get_value(row))
-                    .map_or(0, |v| hash_value(&v))
+                    .unwrap_or(Value::Null);
+                grafeo_common::types::HashableValue(value)
             })
             .collect();
-        Self(hashes)
+        Self(parts)
     }
 
     fn from_all_columns(chunk: &DataChunk, row: usize) -> Self {
-        let hashes: Vec<u64> = (0..chunk.column_count())
-            .map(|col| {
-                chunk
-                    .column(col)
-                    .and_then(|c| c.get_value(row))
-                    .map_or(0, |v| hash_value(&v))
-            })
-            .collect();
-        Self(hashes)
+        let columns: Vec<usize> = (0..chunk.column_count()).collect();
+        Self::from_row(chunk, row, &columns)
     }
-}
-
-fn hash_value(value: &Value) -> u64 {
-    use std::collections::hash_map::DefaultHasher;
-    use std::hash::{Hash, Hasher};
-
-    let mut hasher = DefaultHasher::new();
-    match value {
-        Value::Null => 0u8.hash(&mut hasher),
-        Value::Bool(b) => b.hash(&mut hasher),
-        Value::Int64(i) => i.hash(&mut hasher),
-        Value::Float64(f) => f.to_bits().hash(&mut hasher),
-        Value::String(s) => s.hash(&mut hasher),
-        _ => 0u8.hash(&mut hasher),
-    }
-    hasher.finish()
 }
 
 /// Push-based distinct operator.
